@@ -667,7 +667,12 @@ func (r *Runner) solveOne(o *Obligation) {
 				continue
 			}
 		} else {
-			res, all = solveQuery(file, r.Timeout, o.Expect)
+			tmo := r.Timeout
+			if o.Expect == "sat" {
+				// vacuity probes: only a quick "unsat" is informative
+				tmo = min(tmo, 6)
+			}
+			res, all = solveQuery(file, tmo, o.Expect)
 		}
 		r.mu.Lock()
 		for _, a := range all {
